@@ -119,3 +119,19 @@ Theorem C01_sonic_complete :
     s_check vk (combine (map fst csts) (map lp_bound lps)) z (map (fun lp => eval (lp_poly lp) z) lps) pf chal = Ok (true, rest).
 Proof. exact @sonic_complete. Qed.
 Print Assumptions C01_sonic_complete.
+
+(* Hyrax (group elements as formal combinations over the published key): for every matrix of 2^n evaluations, every
+   point, every RNG tape of committer and prover and every challenge, the proof of the dot-product argument is accepted
+   for the value the prover computes, <l * M, r> with (l, r) the tensor vectors of the two halves of the point *)
+From PC Require Import Schemes.Hyrax Proofs.HyraxFacts.
+Theorem C01_hyrax_check_complete :
+  forall (FO : FieldOps) (FL : FieldLaws FO) keylen nv evals ctape rows st ndraws point otape c pf nd,
+    (1 <= keylen)%nat -> length point = nv ->
+    h_commit1 keylen nv evals ctape = Ok (rows, st, ndraws) ->
+    keylen = (2 ^ (nv / 2))%nat ->
+    h_open1 keylen point st otape c = Ok (pf, nd) ->
+    let '(l, r) := h_lr point in
+    length l = keylen -> length r = keylen ->
+    h_check1 keylen point rows (vdot (row_mul (hs_mat st) keylen l) r) pf c = Ok true.
+Proof. exact @h_check_complete. Qed.
+Print Assumptions C01_hyrax_check_complete.
